@@ -24,6 +24,7 @@ from harness import servers, scenario, reset
 ID = 'C17'
 LEVEL = 'model_checking'
 TOK_A = ['R', 'W', 'C', 'E2', 'E3', 'E1', 'D', 'I', 'UA', 'I0']
+TOK_EXTRA = ['WMAX']          # singles only
 TIDS = [1, 0xFFFF, 0]
 FRONTS_FOR = {}
 for _f, (_k, _frs) in servers.FRONTS.items():
@@ -38,6 +39,13 @@ def run_history(front, framing, cfg, seq, delivery='whole'):
     srv = servers.Server(front, framing, ctx, ignore_missing_slaves=cfg.ignore)
     conn = srv.open()
     outs = []
+    if delivery == 'burst-bytes':
+        # one request arriving a byte at a time, all of it before the front-end gets to handle the first byte
+        unit, m = scenario.token(seq[0], 0, cfg)
+        f = scenario.frame(framing, unit, TIDS[0], m)
+        chunks = [f[i:i + 1] for i in range(len(f))] if servers.FRONTS[front][0] == 'stream' else [f]
+        outs = [tuple(conn.burst(chunks))]
+        seq = ()
     if delivery == 'burst':
         # every request of the history arrives back to back, before the front-end gets to handle the first
         frames = []
@@ -119,9 +127,17 @@ def shard_equiv(args):
                             whole_base = r0
                     if n == 2:
                         compare(acc, framing, cfg, seq, 'burst', fronts, None)
+                    if n == 1 and framing != 'tls':
+                        compare(acc, framing, cfg, seq, 'burst-bytes', fronts, whole_base)
                     dg = [f for f in fronts if servers.FRONTS[f][0] != 'stream']
                     if n <= 2 and len(dg) > 1:
                         compare(acc, framing, cfg, seq, 'debris-first', dg, whole_base)
+            for tok in TOK_EXTRA:
+                if framing == 'tls':
+                    continue
+                k += 1
+                if k % parts == part:
+                    compare(acc, framing, cfg, (tok,), 'whole', fronts, None)
             # a request whose handling raises: every connection-oriented front-end ends the conversation there, every
             # datagram front-end goes on with the next datagram (compared within each family)
             if framing != 'tls':
